@@ -254,3 +254,23 @@ def leaf_edges():
                     body2 = "\n".join([i + lines[0] + t] + [i + x for x in lines[1:]])
                     out.append(body2 + "\n")
     return list(dict.fromkeys(out))
+
+
+def link_edges():
+    """Link / image / definition forms x destination and title edge shapes (percent escapes, entities, parentheses,
+    angle brackets, spaces, non-ASCII), plain and inside '> ' and '- '."""
+    dests = ["/u", "/u%2", "/u%20", "/u%", "/u%g", "/u%2g", "/u%F", "/a(b)", "/a\\(b", "<a b>", "<>", "", "#", "/ü", "/a&b", "/a&amp;b", "/a*b*", "/a\\*b", "/a`b", "/a\"b", "/a%%", "/%41%zz"]
+    titles = ["", " \"t\"", " 't'", " (t)", " \"t%2\"", " \"a\\\"b\""]
+    out = []
+    for d in dests:
+        for t in titles:
+            body = [f"[l]({d}{t})", f"![i]({d}{t})", f"x [l]({d}{t}) y"]
+            for b in body:
+                out.append(b + "\n")
+            if d:
+                out.append(f"[r]: {d}{t}\n\n[r]\n")
+                out.append(f"> [r]: {d}{t}\n>\n> [r]\n")
+                out.append(f"- [l]({d}{t})\n")
+                out.append(f"- > [bar]: {d}\n")
+    out += ["<http://a.b/c%2>\n", "<http://a.b/c%20d>\n", "<a@b.c>\n", "[l](/u \"t\" x)\n", "[l](/u\n\"t\")\n", "[l]( /u )\n", "[l](</u> \"t\")\n"]
+    return list(dict.fromkeys(out))
